@@ -235,9 +235,15 @@ func runC19(c *fw.Ctx) {
 	ctxOf := func() (context.Context, context.CancelFunc) {
 		return context.WithTimeout(context.Background(), 20*time.Second)
 	}
-	for i := 0; i < c.PerShard(c.Pick(4000, 120000)); i++ {
+	for i := 0; i < c.PerShard(c.Pick(4000, 50000)); i++ {
 		pg := gens[i%len(gens)]
 		forms := pg.Program()
+		// programs the reference interpreter cannot finish within its step budget (runaway recursion) are not delivered;
+		// judged on the generated forms alone (the fixed extra forms appended below always terminate)
+		discard := ""
+		if ref := runRef(forms, 200000); ref.Err != nil && (ref.Err.Class == refmal.Budget || ref.Err.Class == refmal.Malformed) {
+			discard = string(ref.Err.Class)
+		}
 		// the program's value is observed through a final trace! on every route
 		last := forms[len(forms)-1]
 		forms[len(forms)-1] = canon.Li(canon.Sy("trace!"), last)
@@ -270,8 +276,8 @@ func runC19(c *fw.Ctx) {
 		doForm := canon.Li(append([]*canon.Node{canon.Sy("do")}, forms...)...)
 		c.Case(fmt.Sprintf("prog-%d", i), progText(forms), func() {
 			// programs the reference interpreter cannot finish within its step budget (runaway recursion) are not delivered
-			if ref := runRef(forms, 200000); ref.Err != nil && (ref.Err.Class == refmal.Budget || ref.Err.Class == refmal.Malformed) {
-				c.Count("discarded."+string(ref.Err.Class), 1)
+			if discard != "" {
+				c.Count("discarded."+discard, 1)
 				return
 			}
 			// reference: plain do-wrapped text, no module
